@@ -8,6 +8,8 @@ from core import Run, finish
 
 PROPS = {}
 REPLAY = {}      # prop -> (family, trace module, relevant conjuncts)
+REPLAY_OPTS = {}  # prop -> dict(cfg=trace cfg, race=bool, repeat=n re-executions (schedule-dependent families))
+TRACE_CFG = {"Trace_Api": "TraceT.cfg", "Trace_Sql": "TraceT.cfg", "Trace_Conc": "TraceT.cfg"}
 
 
 def prop(pid, family=None, module=None, relevant=None):
@@ -25,13 +27,22 @@ def replay(pid, path, seed):
     family, module, relevant = data["family"], data["trace_module"], REPLAY.get(pid, (None, None, None))[2]
     run = Run(pid, "quick", seed)
     rec = {k: v for k, v in data["record"].items() if k not in ("obs", "_why")}
-    rec["id"] = 1
+    opts = REPLAY_OPTS.get(pid, {})
+    recs = []
+    for i in range(opts.get("repeat", 1)):
+        r = dict(rec)
+        r["id"] = i + 1
+        r["oseed"] = seed * 1000 + i
+        recs.append(r)
     cases = os.path.join(vf.scratch(), "replay.ndjson")
-    vf.write_ndjson(cases, [rec])
-    obs = run.replay(family, cases=cases, name="replay", jobs=1)
-    verdicts = run.validate(module, obs, chunks=1)
-    why = core.filter_why(verdicts[1]["why"], relevant)
-    o = vf.read_ndjson(obs)[0]
+    vf.write_ndjson(cases, recs)
+    obs = run.replay(family, cases=cases, name="replay", jobs=1, race=opts.get("race", False))
+    verdicts = run.validate(module, obs, chunks=1, cfg=TRACE_CFG.get(module, "Trace.cfg"))
+    why, o = set(), None
+    for cand in vf.read_ndjson(obs):          # (schedule-dependent families: the first rejected re-execution)
+        w = core.filter_why(verdicts[cand["id"]]["why"], relevant)
+        if o is None or (w and not why):
+            why, o = w, cand
     o["_why"] = sorted(why)
     print(json.dumps(dict(observed=o["obs"], rejected_conjuncts=sorted(why)), indent=1)[:6000])
     if why:
@@ -451,6 +462,71 @@ def c20(tier, seed):
                   "structure and every condition's tokens with the criteria tree. distinct = distinct trees; non-trivial = has a connective",
                   assumptions=["string literals are read the MySQL-default way (backslash escapes); whether \\\\xNN escapes of control "
                                "characters decode back to the operand is reported as a diagnostic, not a verdict"])
+
+
+# ---------------------------------------------------------------------------- C14 concurrency
+C14_MODEL = [("engines", 3), ("warm", 3), ("invoke", 3), ("mixed", 3)]
+C14_NEG = [("racy", 2, "RaceFree"), ("racy", 2, "FreshNames"), ("racy", 2, "NoLostDraw"), ("cold", 2, "RaceFree"),
+           ("cold", 2, "SameTables"), ("nolock", 2, "RaceFree"), ("nolock", 2, "TzGuarded")]
+
+
+@prop("C14", "conc", "Trace_Conc", None)
+def c14(tier, seed):
+    run = Run("C14", tier, seed)
+    thorough = tier == "thorough"
+    # Mode A: every interleaving of the shared-memory skeleton
+    for mode, size in C14_MODEL + ([("invoke", 4), ("mixed", 4), ("warm", 4)] if thorough else []):
+        run.model_check("Gen_Conc", "Gen_Conc.cfg", mode=mode, size=size, heap="12g", timeout=3600)
+    # negative controls: the invariants are not vacuous -- TLC must find each violation
+    neg = []
+    for mode, size, inv in C14_NEG:
+        r = vf.tlc("Gen_Conc", "Gen_Conc_%s.cfg" % inv, dict(P_MODE=mode, P_SIZE=size), timeout=900)
+        if vf.tlc_violation(r) != inv:
+            raise vf.Infra("negative control %s: TLC did not find a violation of %s (the invariant is vacuous):\n%s"
+                           % (mode, inv, vf.tail(r["out"], 30)))
+        neg.append("%s violates %s" % (mode, inv))
+    run.extra["negative_controls"] = neg
+    # Mode B/C: scenarios run by the -race harness, one process each
+    cases, n = run.generate("Gen_Conc", "Gen_Conc.cfg", mode="cases", size=2 if thorough else 1)
+    passes = 3 if thorough else 1
+    base = 0
+    for ps in range(passes):
+        recs = vf.read_ndjson(cases)
+        for r in recs:
+            r["id"] = base + r["id"]
+            r["oseed"] = seed * 1000 + ps
+        base += len(recs)
+        pc = os.path.join(vf.scratch(), "conc_pass%d.ndjson" % ps)
+        vf.write_ndjson(pc, recs)
+        obs = run.replay("conc", cases=pc, name="conc_%d" % ps, race=True, jobs=4, budget=60000)
+        verdicts = run.validate("Trace_Conc", obs, cfg="TraceT.cfg", shard=60, parallel=12, heap="3g")
+        hr = [i for i, v in verdicts.items() if v.get("skip") == "harness race"]
+        if hr:
+            raise vf.Infra("the race detector reported a race inside the harness itself (cases %s)" % hr[:5])
+        # the race detector's report / the differing outcome is recorded in the observation itself; a schedule
+        # need not repeat, so rejected records are not re-executed before they are reported
+        run.triage("conc", "Trace_Conc", obs, verdicts, None, confirm=False,
+                   key=lambda r: json.dumps([r["kind"], r["g"], r["backend"], r["rot"]]),
+                   nontrivial=lambda r: r["g"] >= 4)
+    run.bounds = dict(model="P goroutines x the per-access skeleton: engines/warm/invoke/mixed at P=3%s; Draws=2 per compilation"
+                            % (", invoke/mixed/warm at P=4" if thorough else ""),
+                      scenarios="4 kinds x G in %s x 4 back ends x %d program rotations x %d offset seed(s), %s rounds"
+                                % ("{2,4,8}" if thorough else "{4}", 17 if thorough else 6, passes, "2 (invoke: 6)"))
+    return finish(run, "model_checking",
+                  "states: every interleaving of P goroutines over the shared-memory skeleton of Compile / invocation (one step per shared "
+                  "access or lock operation): RaceFree, TzGuarded, FreshNames, GloballyFresh, SameTables, NoStuck, NoLostDraw are invariants; "
+                  "seven negative controls (non-atomic counter, shared cold engine, unlocked zone cache) must each be found violating. "
+                  "cases: scenario descriptors run by the harness built with -race, one process per scenario, goroutines released from a "
+                  "barrier with seeded offsets; TLC rejects a record when the race detector reported a race inside yae, when any "
+                  "goroutine's outcome differs from the same work run alone or from the specification's own evaluation, or when the "
+                  "recorded draws from the type-variable counter (types.TyVarHook) are not a behaviour of the atomic Draw action. "
+                  "distinct = distinct scenarios; non-trivial = at least 4 goroutines",
+                  assumptions=["the Go race detector reports only real races (it has no false positives) but sees only the schedules that "
+                               "happened; the exhaustive part is the TLA+ skeleton, whose steps were read off the code by hand",
+                               "TLC's evaluation of the TLA+ operators is trusted"])
+
+
+REPLAY_OPTS["C14"] = dict(race=True, repeat=5)
 
 
 # ---------------------------------------------------------------------------- C19 debug evaluation
